@@ -13,6 +13,7 @@ use ndarray::{arr1, Array2};
 //   L1 (= |p-q| in one dimension, no rounding between the two sides):  i is returned  <=>  |p_i - q| < r
 //   L2 (compared on the squared scale, powi(x,2) = x*x):                i is returned  <=>  (p_i-q)^2 < r^2
 // and the answer lists exactly those rows, in row order, each with its own coordinate and original index.
+// n=1: every finite f32.  n=2: integer-valued floats (two rows of full-domain floats: L1 712 s, L2 no answer in 15 min; integer-valued: ~350 s each).
 fn batch1(p: f32) -> Array2<f32> { Array2::from_shape_vec((1, 1), vec![p]).unwrap() }
 fn batch2(p: [f32; 2]) -> Array2<f32> { Array2::from_shape_vec((2, 1), vec![p[0], p[1]]).unwrap() }
 
@@ -36,14 +37,14 @@ fn c07_linear_range_l1_n1() {
     kani::cover!(r == 0.0 && p == q);
 }
 
-// @unit class=bounded tier=thorough mem=light timeout=900 bound="n=2,dim=1" fns=linfa_nn::LinearSearchIndex::new,linfa_nn::LinearSearchIndex::within_range
+// @unit class=bounded tier=thorough mem=light timeout=1200 bound="n=2,dim=1,integer values p,q in -8..8,r in 0..16" fns=linfa_nn::LinearSearchIndex::new,linfa_nn::LinearSearchIndex::within_range
 #[kani::proof]
 #[kani::unwind(5)]
 #[kani::stub(alloc::fmt::format, fmt_stub)]
 fn c07_linear_range_l1_n2() {
-    let p: [f32; 2] = kani::any();
-    let (q, r): (f32, f32) = (kani::any(), kani::any());
-    kani::assume(p[0].is_finite() && p[1].is_finite() && q.is_finite() && r.is_finite() && r >= 0.0);
+    let v: [i8; 4] = kani::any();
+    kani::assume(v[0] >= -8 && v[0] <= 8 && v[1] >= -8 && v[1] <= 8 && v[2] >= -8 && v[2] <= 8 && v[3] >= 0 && v[3] <= 16);
+    let (p, q, r) = ([v[0] as f32, v[1] as f32], v[2] as f32, v[3] as f32);
     let b = batch2(p);
     let idx = match LinearSearchIndex::new(&b, L1Dist) { Ok(i) => i, Err(_) => { assert!(false); return; } };
     let qa = arr1(&[q]);
@@ -59,9 +60,10 @@ fn c07_linear_range_l1_n2() {
     kani::cover!(!in0 && in1);
     kani::cover!(!in0 && !in1 && r > 0.0);
     kani::cover!(!in0 && in1 && (p[0] - q).abs() == r);
+    kani::cover!(in0 && !in1 && (p[1] - q).abs() == r);
 }
 
-// @unit class=bounded tier=quick mem=light timeout=400 bound="n=1,dim=1" fns=linfa_nn::LinearSearchIndex::new,linfa_nn::LinearSearchIndex::within_range
+// @unit class=bounded tier=thorough mem=light timeout=900 bound="n=1,dim=1" fns=linfa_nn::LinearSearchIndex::new,linfa_nn::LinearSearchIndex::within_range
 #[kani::proof]
 #[kani::unwind(4)]
 #[kani::stub(alloc::fmt::format, fmt_stub)]
@@ -82,15 +84,15 @@ fn c07_linear_range_l2_n1() {
     kani::cover!(r == 0.0 && p == q);
 }
 
-// @unit class=bounded tier=thorough mem=light timeout=900 bound="n=2,dim=1" fns=linfa_nn::LinearSearchIndex::new,linfa_nn::LinearSearchIndex::within_range
+// @unit class=bounded tier=thorough mem=light timeout=1200 bound="n=2,dim=1,integer values p,q in -8..8,r in 0..16" fns=linfa_nn::LinearSearchIndex::new,linfa_nn::LinearSearchIndex::within_range
 #[kani::proof]
 #[kani::unwind(5)]
 #[kani::stub(alloc::fmt::format, fmt_stub)]
 #[kani::stub(f32::powi, ghost_powi32)]
 fn c07_linear_range_l2_n2() {
-    let p: [f32; 2] = kani::any();
-    let (q, r): (f32, f32) = (kani::any(), kani::any());
-    kani::assume(p[0].is_finite() && p[1].is_finite() && q.is_finite() && r.is_finite() && r >= 0.0);
+    let v: [i8; 4] = kani::any();
+    kani::assume(v[0] >= -8 && v[0] <= 8 && v[1] >= -8 && v[1] <= 8 && v[2] >= -8 && v[2] <= 8 && v[3] >= 0 && v[3] <= 16);
+    let (p, q, r) = ([v[0] as f32, v[1] as f32], v[2] as f32, v[3] as f32);
     let b = batch2(p);
     let idx = match LinearSearchIndex::new(&b, L2Dist) { Ok(i) => i, Err(_) => { assert!(false); return; } };
     let qa = arr1(&[q]);
@@ -105,12 +107,13 @@ fn c07_linear_range_l2_n2() {
     kani::cover!(in0 && !in1);
     kani::cover!(!in0 && in1);
     kani::cover!(!in0 && !in1 && r > 0.0);
+    kani::cover!(!in0 && in1 && (q - p[0]) * (q - p[0]) == r * r);
 }
 
 // k-nearest on two stored points: min(k,2) answers, ascending distance, the distances are those of the true nearest
 // points, each answer carries its own coordinate and original row; ties in any order.  |values| < 2^20 so that no
 // distance overflows (the heap elements refuse non-finite distances).
-// @unit class=bounded tier=thorough mem=heavy timeout=900 bound="n=2,dim=1,k<=3" fns=linfa_nn::LinearSearchIndex::new,linfa_nn::LinearSearchIndex::k_nearest
+// @unit class=bounded tier=thorough mem=heavy timeout=1200 bound="n=2,dim=1,k<=3,|values|<2^20" fns=linfa_nn::LinearSearchIndex::new,linfa_nn::LinearSearchIndex::k_nearest
 #[kani::proof]
 #[kani::unwind(6)]
 #[kani::stub(alloc::fmt::format, fmt_stub)]
